@@ -277,6 +277,9 @@ def _defines(bl, L):
             kind = None
             if rv["k"] == "agg" and rv.get("agg") == "adt" and rv.get("variant") in POSITIVE:
                 kind = rv["variant"]
+            elif rv["k"] == "agg" and rv.get("agg") == "adt" and isinstance(rv.get("variant"), str) and rv.get("variant") and \
+                    (rv.get("adt") or "").startswith(("s3s::", "s3s_fs::", "s3s_policy::", "s3s_aws::")):
+                kind = rv["variant"]        # a private enum a classifier helper answers with: threaded like Ok / Err
             elif rv["k"] == "use" and isinstance(rv["ops"][0], dict) and rv["ops"][0].get("c") == "int" and rv["ops"][0].get("ty") == "bool":
                 kind = "true" if rv["ops"][0].get("v") != "0" else "false"
             out.append((si, kind))
